@@ -172,6 +172,8 @@ def run(ctx) -> None:
     ctx.rule("TARGET-FIELDS", "consumers agree on If.on_true / If.on_false / Jump.target and rewrite each from itself", floor=6)
     ctx.rule("EXH2", "_LINEARIZE_DISPATCH covers yielding.flow.Node", floor=1)
     ctx.rule("SEQ", "linearize -> compress -> fix labels -> split", floor=1)
+    ctx.rule("LABEL-REWIRE", "labels are set only when unset, unset only after re-mapping, and re-mapped to labels that survive", floor=5)
+    _check_label_rewiring(ctx)
     m = p.module(LIN)
     n_funcs = 0
     for name, f in m.functions.items():
@@ -277,3 +279,114 @@ def run(ctx) -> None:
         # each value is the function named after its key
         ctx.ok("EXH2", m, tab, what=f"_LINEARIZE_DISPATCH covers {sorted(members)}")
     seq.check_sequence(ctx, p.func(f"{LIN}:linearize_to_subroutines"), "SEQ", ["_linearize_control_flow", "_compress_in_place", "_fix_labels_in_place", "_split_in_subroutines"], lambda n: n.kind == "return" and isinstance(n.expr, ast.Name))
+
+
+def _check_label_rewiring(ctx) -> None:
+    """Typestate of labels in the passes that delete or move them (``_remove_noops_in_place`` and siblings):
+    (a) a label is given to a statement only when the statement is known to have none (``X.label is None``) - otherwise
+        jumps to the old label lose their destination;
+    (b) a label is unset only after it was mapped (``old_to_new_target[X.label] = ...``) or proven to be no target;
+    (c) the value a label is mapped to belongs to a statement whose label survives the pass: a non-no-op statement, or
+        an element of the no-op block that the unsetting loop skips (the prefix consumed by ``next(...)``)."""
+    from ..rules import schema as S
+
+    p = ctx.p
+    mod = p.module("yielding.linear")
+    n_sites = 0
+    for f in mod.functions.values():
+        stores = [n for n in walk_function_body(f.node) if isinstance(n, ast.Assign) and len(n.targets) == 1 and isinstance(n.targets[0], ast.Attribute) and n.targets[0].attr == "label"]
+        if not stores:
+            continue
+        parents = S.parents_of(f)
+        defs: Dict[str, List[ast.expr]] = {}
+        for n in walk_function_body(f.node):
+            if isinstance(n, ast.Assign) and len(n.targets) == 1 and isinstance(n.targets[0], ast.Name):
+                defs.setdefault(n.targets[0].id, []).append(n.value)
+        unset_vars = {ast.unparse(s.targets[0].value) for s in stores if isinstance(s.value, ast.Constant) and s.value.value is None}
+        for s in stores:
+            owner = ast.unparse(s.targets[0].value)
+            if owner == "self" and f.name == "__init__":
+                continue
+            n_sites += 1
+            guards = []
+            for t, pol in S.guards_of(s, parents):
+                parts = t.values if (pol and isinstance(t, ast.BoolOp) and isinstance(t.op, ast.And)) else [t]
+                guards.extend(("" if pol else "not ") + ast.unparse(x) for x in parts)
+            if isinstance(s.value, ast.Constant) and s.value.value is None:
+                # (b) unset: mapped before in the same block, or proven not to be a target
+                blk = parents.get(id(s))
+                body = next((getattr(blk, fld) for fld in ("body", "orelse") if isinstance(getattr(blk, fld, None), list) and s in getattr(blk, fld)), [])
+                before = body[: body.index(s)] if s in body else []
+                mapped = any(isinstance(b, ast.Assign) and isinstance(b.targets[0], ast.Subscript) and ast.unparse(b.targets[0].slice) == f"{owner}.label" for b in before)
+                not_target = any("not in target_set" in g or "not in targets" in g for g in guards)
+                what = f"{f.name}: `{owner}.label = None` only after the label was re-mapped (or is no target)"
+                if mapped or not_target:
+                    ctx.ok("LABEL-REWIRE", f, s, what=what)
+                else:
+                    ctx.fail("LABEL-REWIRE", f, s, f"`{owner}.label` is unset without `old_to_new_target[{owner}.label] = ...` before it: jumps to that label keep a target that no statement carries", construct=what)
+            else:
+                # (a) set: only when unset
+                what = f"{f.name}: `{owner}.label` is assigned only when it is None"
+                renames_itself = isinstance(s.value, ast.Subscript) and ast.unparse(s.value.slice) == f"{owner}.label"
+                if f"{owner}.label is None" in guards or renames_itself:
+                    ctx.ok("LABEL-REWIRE", f, s, what=what)
+                else:
+                    ctx.fail("LABEL-REWIRE", f, s, f"`{owner}.label = {short(s.value)}` overwrites a label the statement may already carry (guards: {guards or 'none'}): jumps to the old label (e.g. a loop's back-jump) lose their destination", construct=what)
+        # (c) mapping values
+        for m in [n for n in walk_function_body(f.node) if isinstance(n, ast.Assign) and isinstance(n.targets[0], ast.Subscript) and dotted_of(n.targets[0].value) == "old_to_new_target"]:
+            v = m.value
+            n_sites += 1
+            what = f"{f.name}: `{short(m)}` maps to a label that survives"
+            ok = False
+            why = ""
+            if isinstance(v, ast.Attribute) and v.attr == "label":
+                base = v.value
+                if isinstance(base, ast.Name):
+                    if base.id not in unset_vars:
+                        ok = True
+                    else:
+                        why = f"`{base.id}.label` is unset in this pass"
+                elif isinstance(base, ast.Subscript) and isinstance(base.value, ast.Name):
+                    # an element of a block: it survives iff the unsetting loop skips it
+                    idx = base.slice
+                    j = idx.value if isinstance(idx, ast.Constant) and isinstance(idx.value, int) else (-idx.operand.value if isinstance(idx, ast.UnaryOp) and isinstance(idx.op, ast.USub) and isinstance(idx.operand, ast.Constant) else None)
+                    loop = None
+                    cur: ast.AST = m
+                    while id(cur) in parents:
+                        cur = parents[id(cur)]
+                        if isinstance(cur, ast.For):
+                            loop = cur
+                            break
+                    skipped = _skipped_prefix(loop, base.value.id, f, defs) if loop is not None else None
+                    if j is not None and skipped is not None and 0 <= j < skipped:
+                        ok = True
+                    else:
+                        why = f"element [{j}] of `{base.value.id}` is among those the enclosing loop unsets (it skips the first {skipped})"
+            if ok:
+                ctx.ok("LABEL-REWIRE", f, m, what=what)
+            else:
+                ctx.fail("LABEL-REWIRE", f, m, f"`{short(m)}`: {why or 'the new target is not the label of a statement that keeps its label'}: re-wired jumps point at a label that the pass deletes", construct=what)
+    ctx.require_anchor(n_sites >= 5, "label stores and old_to_new_target mappings in yielding/linear.py")
+
+
+def _is_fresh_object(owner: Optional[str], f) -> bool:
+    return False
+
+
+def _skipped_prefix(loop: ast.For, block: str, f, defs) -> Optional[int]:
+    """How many leading elements of ``block`` the loop does not visit: ``it = iter(block); next(it) x k; for x in it``."""
+    it = loop.iter
+    if isinstance(it, ast.Name):
+        ds = defs.get(it.id, [])
+        if len(ds) == 1 and isinstance(ds[0], ast.Call) and dotted_of(ds[0].func) == "iter" and ds[0].args and dotted_of(ds[0].args[0]) == block:
+            k = 0
+            for n in walk_function_body(f.node):
+                if isinstance(n, ast.Expr) and isinstance(n.value, ast.Call) and dotted_of(n.value.func) == "next" and n.value.args and dotted_of(n.value.args[0]) == it.id and n.lineno < loop.lineno:
+                    k += 1
+            return k
+        return None
+    if isinstance(it, ast.Subscript) and dotted_of(it.value) == block and isinstance(it.slice, ast.Slice) and isinstance(it.slice.lower, ast.Constant) and it.slice.upper is None:
+        return it.slice.lower.value
+    if dotted_of(it) == block:
+        return 0
+    return None
